@@ -33,6 +33,8 @@ type deferSite struct {
 }
 
 type loopInfo struct {
+	frameComps []string // heap components covered by the automatic frame invariant
+
 	header  *ssa.BasicBlock
 	blocks  map[int]bool
 	latches []*ssa.BasicBlock
@@ -51,6 +53,8 @@ type Frame struct {
 	blockChans []string // channels of the blocking operation whose "site block" conditions are being evaluated
 	atExit     bool     // postconditions are being evaluated over the merged returns
 	sendNonBlocking bool // the send being executed is a case of a select with a default branch
+	siteCallee string    // full name of the callee at the call site whose conditions are being evaluated
+	owned      []ownedObj // maps / slices the contract declares to belong to this call alone
 
 	vc       *VC
 	p        *Program
@@ -801,6 +805,9 @@ func (f *Frame) enterLoop(li *loopInfo) {
 			f.vc.havocComp(f.cur, c)
 		}
 	}
+	if !all {
+		f.autoFrameAssume(li, comps)
+	}
 	// automatic candidate invariant (checked on every back edge): locks are balanced per iteration
 	li.lockComps = nil
 	for _, c := range comps {
@@ -915,6 +922,7 @@ func (f *Frame) checkLoopInv(li *loopInfo, latch *ssa.BasicBlock, si int, entry 
 	}
 	if !entry {
 		f.siteContinue(li, latch, guard, st)
+		f.autoFrameCheck(li, guard, st, "")
 	}
 	for _, c := range invs {
 		env := f.envAt(st, li)
